@@ -9,9 +9,15 @@
 //!
 //! Positive control (`C advfinds`): on known-malleable inputs (two different satisfactions of
 //! the same script that the adversary can assemble) the same search MUST find an alternative.
+//! Generator control (`J advcovers`): for EVERY control script the search must report every
+//! satisfaction the specification table generates (and the Script semantics accepts).
+//! Descriptor level (`J dnonmall`, `J dnoalt`, …): see `c03desc.rs`.
 //! Self-check (`C advbrute`): pruned search == brute-force enumeration on the small cases.
 //! Correspondence (`C satisfy … nonmall`): the satisfier model of `Thm/C03.lean`'s theorems.
 use std::collections::BTreeSet;
+
+#[path = "c03desc.rs"]
+mod dlevel;
 
 use crate::ast::{self, hex, CtxK, Node, HK};
 use crate::common::{Out, Rng};
@@ -48,10 +54,17 @@ fn assets_for(node: &Node, lt: u32, sq: u32, keymask: u32, premask: u32) -> Asse
     let full = Assets::full(node);
     let mut a = Assets::default();
     for (i, k) in full.ecdsa.iter().enumerate() { if keymask >> i & 1 == 1 { a.ecdsa.insert(*k); } }
-    for (i, (k, _)) in full.schnorr.iter().enumerate() {
+    for (i, (k, _)) in full.schnorr.iter().filter(|(k, _)| !full.rawsig.contains(k)).enumerate() {
         if keymask >> i & 1 == 1 { a.schnorr.insert(*k, if k % 2 == 0 { 64 } else { 65 }); }
     }
     for (i, p) in full.pre.iter().enumerate() { if premask >> i & 1 == 1 { a.pre.insert(*p); } }
+    // raw key-hash atoms: the public key is known unless the top mask bit is clear; the
+    // signature follows the key mask (bits after the ordinary keys)
+    let nkeys = full.ecdsa.len() + full.schnorr.iter().filter(|(k, _)| !full.rawsig.contains(k)).count();
+    for (i, h) in full.rawsig.iter().enumerate() {
+        if keymask >> 31 & 1 == 1 || keymask >> (nkeys + i) & 1 == 1 { a.rawpk.insert(*h); }
+        if keymask >> (nkeys + i) & 1 == 1 { a.rawsig.insert(*h); if *h >= 200 { a.schnorr.insert(*h, 64); } }
+    }
     let (mut af, mut ol) = (vec![], vec![]);
     node.locks(&mut af, &mut ol);
     for n in af { if after_ok(lt, n) { a.after.insert(n); } }
@@ -135,7 +148,12 @@ fn sane_wrappings(x: &Node, base: Base, f: u32, g: u32) -> Vec<Node> {
 fn is_b<Pk: msops::HKey, Ctx: ScriptContext>(node: &Node) -> Option<(bool, bool)> {
     let ms: Miniscript<Pk, Ctx> = ast::to_ms(node).ok()?;
     if ms.ty.corr.base != Base::B { return None; }
-    Some((ms.validate(&Ctx::SANE).is_ok(), ms.ty.mall.non_malleable))
+    // raw_pkh is refused by SANE by itself; scripts that are sane EXCEPT for containing raw_pkh
+    // are judged as an extension of the domain (same script bytes and typing as pk_h)
+    let mut rp = vec![]; node.rawpkhs(&mut rp);
+    let mut params = Ctx::SANE;
+    if !rp.is_empty() { params.allow_raw_pkh = true; }
+    Some((ms.validate(&params).is_ok(), ms.ty.mall.non_malleable))
 }
 
 /// (sane, non-malleable by type) of a B-typed fragment, `None` if ill-typed / not B
@@ -151,6 +169,7 @@ fn extras(ctx: CtxK, node: &Node) -> Vec<Vec<u8>> {
     let mut hs = vec![]; node.hashes(&mut hs);
     for (_, h) in hs { let p = ast::preimage(h).to_vec(); if !v.contains(&p) { v.push(p); } }
     let mut ks = vec![]; node.keys(&mut ks);
+    node.rawpkhs(&mut ks);
     for k in ks { let b = key_bytes(ctx, k); if !v.contains(&b) { v.push(b); } }
     v
 }
@@ -161,19 +180,6 @@ fn alpha_size(w: &[Vec<u8>], ex: &[Vec<u8>]) -> usize {
     for e in w { s.insert(e); }
     for e in ex { s.insert(e); }
     s.len() + 6
-}
-
-/// CHECKMULTISIG needs k+1 witness elements at once: the search has to try |Adv|^(k+1) blocks
-fn multisig_cost(node: &Node, alpha: usize) -> f64 {
-    use Node::*;
-    match node {
-        Multi(k, _) | SortedMulti(k, _) => (alpha as f64).powi(*k as i32 + 1),
-        Alt(x) | Swap(x) | Check(x) | DupIf(x) | Verify(x) | NonZero(x) | ZeroNotEqual(x) => multisig_cost(x, alpha),
-        AndV(a, b) | AndB(a, b) | OrB(a, b) | OrD(a, b) | OrC(a, b) | OrI(a, b) => multisig_cost(a, alpha) + multisig_cost(b, alpha),
-        AndOr(a, b, c) => multisig_cost(a, alpha) + multisig_cost(b, alpha) + multisig_cost(c, alpha),
-        Thresh(_, xs) => xs.iter().map(|x| multisig_cost(x, alpha)).sum(),
-        _ => 0.0,
-    }
 }
 
 fn script_hex<Pk: msops::HKey, Ctx: ScriptContext>(node: &Node) -> Option<String> {
@@ -206,18 +212,15 @@ fn is_signature(e: &[u8]) -> bool {
     }).contains(e)
 }
 
-struct Limits { max_alpha_pow: f64 }
+struct Limits { _unused: () }
 const MAXLEN: usize = 100;
 
-/// one judged case; returns false if it was skipped as too expensive
+/// one judged case (nothing is skipped: CHECKMULTISIG blocks are pruned by the driver)
 fn judge(out: &mut Out, lim: &Limits, ctx: CtxK, node: &Node, script: &str, w: &[Vec<u8>], lt: u32, sq: u32,
          slack: usize, info: &str) -> bool {
     let ex = extras(ctx, node);
     let alpha = alpha_size(w, &ex);
-    if multisig_cost(node, alpha) > lim.max_alpha_pow {
-        out.count("skipped: CHECKMULTISIG block too large for the exhaustive search");
-        return false;
-    }
+    let _ = lim;
     // the pruned search only descends while the script still consumes elements, so the bound
     // is just a safety net: 100 = the P2WSH standardness limit on witness items
     let args = format!("{} {} {} {} {} {} {}", ctx.name(), lt, sq, MAXLEN, script, wit_wire(w), wit_wire(&ex));
@@ -228,7 +231,7 @@ fn judge(out: &mut Out, lim: &Limits, ctx: CtxK, node: &Node, script: &str, w: &
     out.count(&format!("judged alphabet size {}", alpha));
     // self-check of the pruned search on cases where brute force is affordable
     let brute: f64 = (0..=maxlen).map(|n| (alpha as f64).powi(n as i32)).sum();
-    if brute <= 40_000.0 {
+    if brute <= 15_000.0 {
         out.line(&format!("C advbrute {}", args), "same");
     }
     true
@@ -267,6 +270,21 @@ fn hand_corpus(ctx: CtxK) -> Vec<Node> {
         c.push(Node::Thresh(2, vec![pk(k(1)), Node::Swap(bx(pk(k(2)))), Node::Alt(bx(h3))]));
     }
     c.push(Node::Thresh(2, vec![pk(k(0)), Node::Swap(bx(pk(k(1)))), Node::Swap(bx(pk(k(2))))]));
+    // every hash kind, sig-less branch vs signed branch
+    for (i, kind) in [HK::Hash256, HK::Ripemd160, HK::Hash160].into_iter().enumerate() {
+        c.push(Node::AndV(bx(v(pk(k(0)))), bx(Node::OrD(bx(pk(k(1))), bx(Node::Hash(kind, i as u32 + 1))))));
+        c.push(Node::AndOr(bx(pk(k(0))), bx(Node::AndV(bx(v(Node::Hash(kind, i as u32 + 1))), bx(pk(k(1))))), bx(pk(k(2)))));
+    }
+    // raw key hashes (refused by SANE as such; judged as an extension, see `is_b`): atom 3 is
+    // the hash of key 3, which is used nowhere else in these scripts
+    let rp = Node::Check(bx(Node::RawPkH(k(3))));
+    c.push(rp.clone());
+    c.push(Node::AndV(bx(v(pk(k(0)))), bx(rp.clone())));
+    c.push(Node::OrD(bx(rp.clone()), bx(Node::AndV(bx(v(pk(k(0)))), bx(sha(0))))));
+    c.push(Node::OrD(bx(pk(k(0))), bx(Node::AndV(bx(v(rp.clone())), bx(Node::Older(10))))));
+    c.push(Node::AndOr(bx(rp.clone()), bx(sha(0)), bx(pk(k(1)))));
+    c.push(Node::Thresh(2, vec![pk(k(0)), Node::Swap(bx(rp.clone())), Node::Swap(bx(pk(k(1))))]));
+    c.push(Node::AndV(bx(v(pk(k(0)))), bx(Node::OrD(bx(rp), bx(sha(0))))));
     // NOT sane in the unchanged library (hash dissatisfactions are not unique): they are judged
     // only if a changed type rule lets them pass `SANE`
     let ab = Node::AndB(bx(pk(k(1))), bx(Node::Swap(bx(sha(0)))));
@@ -278,6 +296,18 @@ fn hand_corpus(ctx: CtxK) -> Vec<Node> {
     c.push(Node::OrD(bx(pk(k(0))), bx(Node::AndV(bx(v(pk(k(1)))), bx(Node::Older(10))))));
     c.push(Node::AndOr(bx(pk(k(0))), bx(Node::Older(10)), bx(pk(k(1)))));
     c.push(Node::AndOr(bx(pk(k(0))), bx(Node::After(100)), bx(Node::AndV(bx(v(pk(k(1)))), bx(Node::After(500_000_001))))));
+    // multisig with n = 3..5, k < n (alone, under a wrapper, and next to a sig-less branch)
+    for (kk, n) in [(2usize, 3u32), (3, 4), (2, 4), (3, 5), (4, 5), (1, 3)] {
+        let ks: Vec<u32> = (0..n).map(k).collect();
+        let m = |ks: Vec<u32>| if ctx == CtxK::Tap { Node::MultiA(kk, ks) } else { Node::Multi(kk, ks) };
+        let sm = |ks: Vec<u32>| if ctx == CtxK::Tap { Node::SortedMultiA(kk, ks) } else { Node::SortedMulti(kk, ks) };
+        c.push(m(ks.clone()));
+        c.push(sm(ks.iter().rev().cloned().collect()));
+        c.push(Node::AndV(bx(v(m(ks.clone()))), bx(Node::OrD(bx(pk(k(n))), bx(sha(0))))));
+        c.push(Node::OrD(bx(m(ks.clone())), bx(Node::AndV(bx(v(pk(k(n)))), bx(Node::Older(10))))));
+        c.push(Node::AndOr(bx(m(ks.clone())), bx(Node::After(100)), bx(pk(k(n)))));
+        c.push(Node::Thresh(2, vec![m(ks.clone()), Node::Alt(bx(pk(k(n)))), Node::Alt(bx(pk(k(n + 1))))]));
+    }
     if ctx == CtxK::Tap {
         c.push(Node::MultiA(2, vec![k(0), k(1), k(2)]));
         c.push(Node::AndV(bx(v(Node::MultiA(1, vec![k(0), k(1)]))), bx(Node::OrD(bx(pk(k(2))), bx(sha(0))))));
@@ -317,11 +347,12 @@ pub fn run(out: &mut Out, thorough: bool, seed: u64) {
     let mut rng = Rng(seed ^ 0xC03);
     ast::emit_defs(out);
     msops::emit_sig_defs(out);
-    let lim = Limits { max_alpha_pow: 150_000.0 };
+    let lim = Limits { _unused: () };
     let slack = 1usize;
     let mut n_sane = 0u64;
     let mut n_judged = 0u64;
     let mut n_ctl = 0u64;
+    let mut pools: std::collections::BTreeMap<CtxK, (Vec<Node>, usize)> = Default::default();
     for ctx in [CtxK::Segwitv0, CtxK::Tap, CtxK::Legacy, CtxK::Bare] {
         let main_ctx = matches!(ctx, CtxK::Segwitv0 | CtxK::Tap);
         let atoms = ast::default_atoms(ctx, !thorough);
@@ -362,19 +393,31 @@ pub fn run(out: &mut Out, thorough: bool, seed: u64) {
             rest.truncate(cap - n_hand);
             sane.extend(rest);
         }
+        {
+            let no_raw = |n: &&Node| { let mut r = vec![]; n.rawpkhs(&mut r); r.is_empty() };
+            let hand_no_raw = sane.iter().take(n_hand).filter(no_raw).count();
+            pools.insert(ctx, (sane.iter().filter(no_raw).cloned().collect(), hand_no_raw));
+        }
         for node in &sane {
             n_sane += 1;
             node.count_frags(out);
             out.count(&format!("sane scripts {}", ctx.name()));
             let script = match with_ctx!(ctx, script_hex(node)) { Some(s) => s, None => continue };
             let full = Assets::full(node);
-            let nk = (full.ecdsa.len() + full.schnorr.len()).min(5) as u32;
+            let n_raw = full.rawsig.len();
+            if n_raw > 0 { out.count("extended domain: sane except for raw_pkh"); }
+            let n_plain = full.ecdsa.len() + full.schnorr.iter().filter(|(k, _)| !full.rawsig.contains(k)).count();
+            let nk = (n_plain + n_raw).min(6) as u32;
             let np = full.pre.len().min(3) as u32;
             let mut txs = tx_values(node);
             if !thorough { txs.truncate(4); }
             let mut done: BTreeSet<(Vec<Vec<u8>>, u32, u32)> = BTreeSet::new();
             for (lt, sq) in txs {
-                for km in (0..(1u32 << nk)).rev() {
+                // bit 31: public keys of raw key hashes known to the caller (one extra round
+                // without it when the script has raw key hashes)
+                let mut kms: Vec<u32> = (0..(1u32 << nk)).rev().map(|m| m | 1 << 31).collect();
+                if n_raw > 0 { kms.push((1u32 << nk) - 1 - (1 << n_plain.min(5))); }
+                for km in kms {
                     for pm in (0..(1u32 << np)).rev() {
                         let a = assets_for(node, lt, sq, km, pm);
                         let w = match with_ctx!(ctx, sat_nonmall(out, ctx, node, &a)) { Some(w) => w, None => continue };
@@ -396,8 +439,15 @@ pub fn run(out: &mut Out, thorough: bool, seed: u64) {
                 let script = match with_ctx!(ctx, script_hex(node)) { Some(s) => s, None => continue };
                 let (lt, sq) = tx_values(node)[0];
                 let full = assets_for(node, lt, sq, u32::MAX, u32::MAX);
+                let full = { let mut f = full; for (k, sz) in f.schnorr.iter_mut() { *sz = if k % 2 == 0 { 64 } else { *sz }; } f };
                 // model correspondence of the NON-malleable mode on malleable scripts as well
                 let _ = with_ctx!(ctx, sat_nonmall(out, ctx, node, &full));
+                // every control script is JUDGED: the search must report every satisfaction the
+                // specification table generates from these assets (independent generator)
+                if node.size() <= 16 {
+                    out.line(&format!("J advcovers {} {} {} {} {} {} {}", ctx.name(), lt, sq, script, wit_wire(&extras(ctx, node)), node.wire(), full.wire()), "ok");
+                    out.count("control: search covers the specification table's satisfactions");
+                } else { out.count("control: script too large for the table generator (size > 16)"); }
                 let w = match with_ctx!(ctx, sat_mall(node, &full)) { Some(w) => w, None => { out.count("control: unsatisfiable"); continue } };
                 // alternatives: drop one preimage / one key from what the caller holds
                 let mut alt: Option<Vec<Vec<u8>>> = None;
@@ -415,7 +465,6 @@ pub fn run(out: &mut Out, thorough: bool, seed: u64) {
                 let w2 = match alt { Some(x) => x, None => { out.count("control: no second satisfaction derivable"); continue } };
                 let ex = extras(ctx, node);
                 let alpha = alpha_size(&w, &ex);
-                if multisig_cost(node, alpha) > lim.max_alpha_pow { continue; }
                 out.line(&format!("C advfinds {} {} {} {} {} {} {} | {} alt={}", ctx.name(), lt, sq, MAXLEN, script,
                     wit_wire(&w), wit_wire(&ex), node.wire(), wit_wire(&w2)), "found");
                 out.count("control: known-malleable input, search must find an alternative");
@@ -423,10 +472,17 @@ pub fn run(out: &mut Out, thorough: bool, seed: u64) {
             }
         }
     }
+    // ---- descriptor level
+    {
+        let e: (Vec<Node>, usize) = (vec![], 0);
+        let g = |c: CtxK| pools.get(&c).unwrap_or(&e);
+        let p = dlevel::Pools { segwit: &g(CtxK::Segwitv0).0, legacy: &g(CtxK::Legacy).0, bare: &g(CtxK::Bare).0, tap: &g(CtxK::Tap).0 };
+        dlevel::run(out, thorough, &mut rng, &p, g(CtxK::Segwitv0).1);
+    }
     out.note("sane_scripts", n_sane.to_string());
     out.note("judged_cases", n_judged.to_string());
     out.note("positive_controls", n_ctl.to_string());
     out.note("distinct_nontrivial", n_judged.to_string());
-    out.note("search", "exhaustive for every judged case: ALL stacks of EVERY length (bound 100 items, never reached: the search descends only while the script still consumes elements) over Adv(w) = elements of w + {empty, 01, 02, 32 zero bytes, 32 junk bytes, 33 junk bytes} + every preimage + every public key of the script; pruned depth-first from the stack top, cross-checked against brute-force enumeration up to |w|+1 on the small cases (C advbrute); a case whose search budget (3e6 script runs) runs out is reported as a failure, cases with an over-large CHECKMULTISIG block are skipped and counted".into());
-    out.note("domain", "B-typed scripts that pass Ctx::SANE (hand corpus + enumerated fragments to depth 3 with keys renamed pairwise distinct and wrapped with fresh signatures; segwitv0, tap, legacy, bare) x transactions on both sides of every lock x subsets of keys and preimages for which the non-malleable satisfier succeeds".into());
+    out.note("search", "exhaustive for every judged case, nothing skipped: ALL stacks of EVERY length (bound 100 items, never reached: the search descends only while the script still consumes elements) over Adv(w) = elements of w + {empty, 01, 02, 32 zero bytes, 32 junk bytes, 33 junk bytes} + every preimage + every public key of the script (also the keys behind raw key hashes); pruned depth-first from the stack top; inside a CHECKMULTISIG signature block only the empty string and valid signatures are tried (rule proved sound: C03.search_sigblock_pruning_sound); cross-checked against brute force up to |w|+1 on the small cases (C advbrute), against the specification table as an independent generator of satisfactions (J advcovers) and by positive controls (C advfinds, C dadvfinds, C dadvalt); a case whose search budget (3e6 script runs) runs out is reported as a failure".into());
+    out.note("domain", "miniscript level: B-typed scripts that pass Ctx::SANE (hand corpus incl. multi/multi_a/sortedmulti with n=3..5, k<n, all four hash kinds; scripts that are sane except for containing raw_pkh as an extension; enumerated fragments to depth 3 with keys renamed pairwise distinct and wrapped with fresh signatures; segwitv0, tap, legacy, bare) x transactions on both sides of every lock x subsets of keys, raw key hashes and preimages for which the non-malleable satisfier succeeds. Descriptor level: wsh / sh(wsh) / sh / bare / pkh / wpkh / sh(wpkh) / tr (key only, 1..3 leaves, shared keys, internal key reused in a leaf, one leaf at two depths) accepted by Descriptor::from_str, real transactions and sighashes, x key/preimage subsets x key path available or not, through Descriptor::get_satisfaction AND Descriptor::into_plan + Plan::satisfy; for tr every other leaf / control block and the key path are searched as alternative envelopes".into());
 }
